@@ -135,6 +135,37 @@ func fieldCases() []fieldCase {
 		{Name: "fail_overlap_default_update", Decls: "type PFXIn struct {\n\tName string\n\tFullName string\n}\ntype PFXOut struct{ Name string }\nfunc PFXNewOut() *PFXOut { return &PFXOut{} }\n", Src: "*PFXIn", Tgt: "*PFXOut",
 			Lines: []string{"default PFXNewOut", "default:update"}, Extra: "\t// goverter:map FullName Name\n\tPFXInner(source PFXIn) *PFXOut\n",
 			Fail: "field settings (map) on a method that the default:update method bypasses"},
+		// two mapped paths of the same type through different pointers in one method
+		{Name: "path_two_ptrs_same_type", Decls: "type PFXAddr struct{ City string }\ntype PFXIn struct {\n\tHome *PFXAddr\n\tWork *PFXAddr\n\tOther *PFXAddr\n}\ntype PFXOut struct {\n\tHomeCity *string\n\tWorkCity *string\n\tOtherCity *string\n}\n", Src: "PFXIn", Tgt: "PFXOut",
+			Lines: []string{"map Home.City HomeCity", "map Work.City WorkCity", "map Other.City OtherCity"},
+			Pairs: map[string]*PairSpec{"PFXIn→PFXOut": {Fields: map[string]*FieldSpec{"HomeCity": fs("Home", "City"), "WorkCity": fs("Work", "City"), "OtherCity": fs("Other", "City")}}}},
+		{Name: "path_two_ptrs_same_type_zero", Decls: "type PFXAddr struct{ City string }\ntype PFXIn struct {\n\tHome *PFXAddr\n\tWork *PFXAddr\n}\ntype PFXOut struct {\n\tHomeCity string\n\tWorkCity string\n}\n", Src: "PFXIn", Tgt: "PFXOut",
+			Lines: []string{"map Home.City HomeCity", "map Work.City WorkCity", "useZeroValueOnPointerInconsistency"}, ZeroNil: true,
+			Pairs: map[string]*PairSpec{"PFXIn→PFXOut": {Fields: map[string]*FieldSpec{"HomeCity": fs("Home", "City"), "WorkCity": fs("Work", "City")}}}},
+		// the whole source (which holds references) as one field, through a pointer source
+		{Name: "whole_with_references_ptr_source", Decls: "type PFXIn struct {\n\tName string\n\tTags []string\n\tP *int\n\tM map[string]int\n}\ntype PFXOut struct {\n\tName string\n\tOrig PFXIn\n}\n", Src: "*PFXIn", Tgt: "*PFXOut",
+			Lines: []string{"map . Orig"},
+			Pairs: map[string]*PairSpec{"PFXIn→PFXOut": {Fields: map[string]*FieldSpec{"Orig": {Whole: true}}}}},
+		{Name: "whole_with_references_value_source", Decls: "type PFXIn struct {\n\tName string\n\tTags []string\n\tP *int\n}\ntype PFXOut struct {\n\tName string\n\tOrig PFXIn\n}\n", Src: "PFXIn", Tgt: "PFXOut",
+			Lines: []string{"map . Orig"},
+			Pairs: map[string]*PairSpec{"PFXIn→PFXOut": {Fields: map[string]*FieldSpec{"Orig": {Whole: true}}}}},
+		// field settings need a struct (or pointer to struct) target: deeper pointer chains are not
+		{Name: "fail_settings_on_double_pointer_method", Decls: in + "type PFXOut struct {\n\tTitle string\n\tAge int\n}\n", Src: "PFXIn", Tgt: "**PFXOut",
+			Lines: []string{"map Name Title"}, Fail: "field settings on a method whose target is a pointer to a pointer"},
+		{Name: "fail_ignore_on_double_pointer_method", Decls: "type PFXSrc struct {\n\tName string\n\tSecret string\n}\ntype PFXOut struct {\n\tName string\n\tSecret string\n}\n", Src: "PFXSrc", Tgt: "**PFXOut",
+			Lines: []string{"ignore Secret"}, Fail: "field settings on a method whose target is a pointer to a pointer"},
+		// the same exact name below two autoMap paths is ambiguous, whatever the order of the lines
+		{Name: "fail_automap_two_paths_exact", Decls: "type PFXIn struct {\n\tBilling PFXA1\n\tShipping PFXA2\n}\ntype PFXA1 struct{ Street string }\ntype PFXA2 struct {\n\tStreet string\n\tCity string\n}\ntype PFXOut struct {\n\tStreet string\n\tCity string\n}\n", Src: "PFXIn", Tgt: "PFXOut",
+			Lines: []string{"autoMap Billing", "autoMap Shipping"}, Fail: "autoMap ambiguity (exact name below two paths)"},
+		{Name: "fail_automap_two_paths_exact_reversed", Decls: "type PFXIn struct {\n\tBilling PFXA1\n\tShipping PFXA2\n}\ntype PFXA1 struct{ Street string }\ntype PFXA2 struct {\n\tStreet string\n\tCity string\n}\ntype PFXOut struct {\n\tStreet string\n\tCity string\n}\n", Src: "PFXIn", Tgt: "PFXOut",
+			Lines: []string{"autoMap Shipping", "autoMap Billing"}, Fail: "autoMap ambiguity (exact name below two paths)"},
+		// `no` values are field settings as well
+		{Name: "fail_ignoremissing_no_on_slice_method", Decls: in + "type PFXOut struct {\n\tName string\n\tAge int\n}\n", Src: "[]PFXIn", Tgt: "[]PFXOut",
+			Lines: []string{"ignoreMissing no"}, Fail: "field setting (with value no) on a method whose target is not the struct"},
+		{Name: "fail_matchignorecase_no_on_slice_method", Decls: in + "type PFXOut struct {\n\tName string\n\tAge int\n}\n", Src: "map[string]PFXIn", Tgt: "map[string]PFXOut",
+			Lines: []string{"matchIgnoreCase no"}, Fail: "field setting (with value no) on a method whose target is not the struct"},
+		{Name: "fail_ignoreunexported_no_on_slice_method", Decls: in + "type PFXOut struct {\n\tName string\n\tAge int\n}\n", Src: "[]PFXIn", Tgt: "[]PFXOut",
+			Lines: []string{"ignoreUnexported no"}, Fail: "field setting (with value no) on a method whose target is not the struct"},
 		{Name: "fail_unexported_target_via_func", Decls: "type PFXIn struct{ Name string }\ntype PFXOut struct {\n\tName string\n\tsecret string\n}\nfunc PFXUpper(s string) string { return s }\n", Src: "PFXIn", Tgt: "PFXOut",
 			Lines: []string{"map Name secret | PFXUpper"}, Fail: "unexported target field written through map|FUNC from another package", Formats: []string{"struct", "function"}},
 		{Name: "fail_unexported_target_via_map", Decls: "type PFXIn struct{ Name string }\ntype PFXOut struct {\n\tName string\n\tsecret string\n}\n", Src: "PFXIn", Tgt: "PFXOut",
